@@ -469,6 +469,21 @@ func naturalName(g *s2cfg) string {
 	return "none"
 }
 
+// s2WithTrace attaches the system-call trace of the last launch to a violation found in the
+// search (replays log every trace anyway), so that a violation is explainable even from the
+// original run.
+func s2WithTrace(c *vcore.Ctx, v *vcore.Violation) *vcore.Violation {
+	if v != nil && !c.Replay {
+		c.Logf("system-call trace of the last launch of the violating run:")
+		for _, t := range s2LastTrace {
+			c.Logf("  %s", t)
+		}
+	}
+	return v
+}
+
+var s2LastTrace []string
+
 func init() {
 	noInit := func(dir, tier string) error { return nil }
 	register(&vcore.Prop{
@@ -483,7 +498,7 @@ func init() {
 			g := genS2Cfg(c, false)
 			g.twice = false
 			c.Event("vec:" + g.vector())
-			return s2RunFaultFree(c, "C04", g, true, false)
+			return s2WithTrace(c, s2RunFaultFree(c, "C04", g, true, false))
 		},
 	})
 	register(&vcore.Prop{
@@ -502,7 +517,7 @@ func init() {
 				c.Probe("internal_fd_inside_list_range")
 			}
 			c.Event(fmt.Sprintf("place:%v:%v:%d:%d", fdList(g.files), g.sockFds, g.execFile, g.cgroupFd))
-			return s2RunFaultFree(c, "C06", g, false, true)
+			return s2WithTrace(c, s2RunFaultFree(c, "C06", g, false, true))
 		},
 	})
 	register(&vcore.Prop{
@@ -513,7 +528,7 @@ func init() {
 		Quick:       vcore.Budget{Wall: 30 * time.Second, Shards: 16},
 		Thorough:    vcore.Budget{Wall: 15 * time.Minute, Shards: 16},
 		Init:        noInit,
-		Run:         s2RunC07,
+		Run:         func(c *vcore.Ctx) *vcore.Violation { return s2WithTrace(c, s2RunC07(c)) },
 	})
 	_ = unix.CLONE_NEWUSER
 }
